@@ -56,6 +56,10 @@ VALIDATORS = [
     FnSpec(SV, "UUIDValidator.validate", drop_first=True),
     FnSpec(SV, "ValueValidator.validate", drop_first=True),
 ]
+IV = "geoh5py/ui_json/validation.py"
+VALIDATION = [
+    FnSpec(IV, "InputValidation._validations_from_uijson"),
+]
 INPUT_FILE = [
     FnSpec(IF, "InputFile.demote", drop_first=True),
     FnSpec(IF, "InputFile.stringify"),
@@ -69,6 +73,8 @@ FILES = [
      ["From GVgen Require Import PyLite_SharedUtils."]),
     ("PyLite_Validators.v", "geoh5py/shared/validators.py: validate bodies", VALIDATORS,
      ["From GVgen Require Import PyLite_SharedUtils."]),
+    ("PyLite_Validation.v", "geoh5py/ui_json/validation.py: _validations_from_uijson", VALIDATION,
+     ["From GVgen Require Import PyLite_SharedUtils PyLite_UiUtils."]),
     ("PyLite_InputFile.v", "geoh5py/ui_json/input_file.py: demote, stringify, numify", INPUT_FILE,
      ["From GV Require Import Model.Enforcers Model.UiForms.", "From GVgen Require Import PyLite_SharedUtils PyLite_UiUtils Table_UiValidations."]),
 ]
